@@ -16,7 +16,7 @@ CHECKS['C12'] = {
             'targets must be the documented top-k for every k. Round 2 (both units): in ~45% (client) / ~40% (balancer) of the cases the set '
             'contains 2-3 services whose weights for the read hash / the hash of the data written / one of the balancer hashes share their '
             'first 4-8 hex digits and differ later (birthday search over splitmix64-derived candidates, a pure function of a drawn seed), or '
-            'a precomputed pair sharing 10-14 hex digits; 27-character and other-length UUID classes; in 1/3 of the read-hash groups one '
+            'a precomputed pair sharing 10-16 hex digits (also as the block written); 27-character and other-length UUID classes; in 1/3 of the read-hash groups one '
             'member is the ADDED service. Labels *:longest-common-weight-prefix=... measure the set itself. non-trivial = at least 2 services; distinct = fingerprint of (uuids, hash, locator)',
     'assumptions': [
         'service sets in which two services share the 15-character UUID suffix (equal weights, order undefined by the documentation) are not generated',
